@@ -33,6 +33,11 @@ type FileSpec struct {
 	Blocks    []Block
 	// MetaSplit writes the metadata map in two blocks instead of one.
 	MetaSplit bool
+	// MetaSized writes each metadata block with a negative count followed by its
+	// size in bytes (the second form the specification gives for map blocks).
+	MetaSized bool
+	// MetaReverse writes the entries in reverse order (avro.codec before avro.schema).
+	MetaReverse bool
 }
 
 // Compress applies the container codec to a block payload.
@@ -160,15 +165,27 @@ func WriteFile(fs FileSpec) ([]byte, FileLayout, error) {
 	for _, e := range entries {
 		lay.Meta[e.k] = e.v
 	}
+	if fs.MetaReverse {
+		for i, j := 0, len(entries)-1; i < j; i, j = i+1, j-1 {
+			entries[i], entries[j] = entries[j], entries[i]
+		}
+	}
 	writeEntries := func(es []kv) {
 		if len(es) == 0 {
 			return
 		}
-		out = AppendLong(out, int64(len(es)))
+		var body []byte
 		for _, e := range es {
-			out = appendBytes(out, []byte(e.k))
-			out = appendBytes(out, e.v)
+			body = appendBytes(body, []byte(e.k))
+			body = appendBytes(body, e.v)
 		}
+		if fs.MetaSized {
+			out = AppendLong(out, -int64(len(es)))
+			out = AppendLong(out, int64(len(body)))
+		} else {
+			out = AppendLong(out, int64(len(es)))
+		}
+		out = append(out, body...)
 	}
 	if fs.MetaSplit && len(entries) >= 2 {
 		writeEntries(entries[:1])
